@@ -41,8 +41,10 @@ def mk_key(eng, idx, nlabels):
 
 def expected_payload(view, lp, has_prefix, oi, op, keys, gl):
     """Exact check of one yielded payload (list of (label, length) segments) against the message the property prescribes for write
-    operation `oi`: `[prefix.]name(:value)+|type[|@rate][|#global tags,own tags][|T timestamp]\\n`, the values being a run of this
-    operation's values in order. Returns (ok, body segments, index of the first value carried, number of values, name length term)."""
+    operation `oi`: `[prefix.]name(:value)+|type[|@rate][|#global tags,own tags][|T timestamp]\\n`, the values being values of this
+    operation in their order (a value that cannot fit any payload by itself is skipped by the writer and reported as dropped, so the
+    indices increase but need not be adjacent). Returns (ok, body segments, (index of the first value carried, index after the last),
+    number of values, name length term)."""
     kind, ki, nv, with_ts, with_rate = op
     segs = list(view)
     if lp:
@@ -60,7 +62,7 @@ def expected_payload(view, lp, has_prefix, oi, op, keys, gl):
     name_len = segs[i][1]
     i += 1
     scalar = kind in ("counter", "gauge")
-    first, n = None, 0
+    first, last, n = None, None, 0
     while i + 1 < len(labs) and labs[i] == "byte::":
         lab = labs[i + 1]
         if scalar:
@@ -72,10 +74,11 @@ def expected_payload(view, lp, has_prefix, oi, op, keys, gl):
             for cand in range(nv):
                 if lab == f"str:ryu(v{oi}_{cand})":
                     j = cand
-            if j is None or (first is not None and j != first + n):
+            if j is None or (last is not None and j <= last):
                 return False, segs, 0, 0, None
         if first is None:
             first = j
+        last = j
         n += 1
         i += 2
     if n < 1:
@@ -111,7 +114,7 @@ def expected_payload(view, lp, has_prefix, oi, op, keys, gl):
         return False, segs, 0, 0, None
     if not eat(["byte:\\n"]) or j != len(rest):
         return False, segs, 0, 0, None
-    return True, segs, first, n, (name_len, bare)
+    return True, segs, (first, last + 1), n, (name_len, bare)
 
 
 def writer_history(e3, name, ops, lp_sym=True):
@@ -209,9 +212,9 @@ def analyse(e3, name, ops, desc):
                                     wrong_name.append(z3.And(cond, nlen != V["keys"][ops[oi][1]].data["name_len"]))
                                     for vl in bare:
                                         bad_struct.append(z3.And(cond, vl != 0))
-                                    if first < next_value.get(oi, 0):      # in order, none twice (a value may be missing: reported as dropped)
+                                    if first[0] < next_value.get(oi, 0):      # in order, none twice (a value may be missing: reported as dropped)
                                         bad_order.append(cond)
-                                    next_value[oi] = first + nv2
+                                    next_value[oi] = first[1]
                                     break
                             if not ok:
                                 bad_struct.append(cond)
